@@ -86,6 +86,15 @@ def main(pid, tier):
     else:
       print("NOTE: recorded finding key=%s did not reproduce on this tree "
             "(%s)" % (key, r.inconclusive or r.harness_errors or "confirmed"))
+  # 1b. Harness validation declared by the spec (concrete comparisons of the
+  # harness's model of the code with the real pipeline; never a deciding step).
+  validation = []
+  if hasattr(spec, "validate") and not only:
+    validation = spec.validate(tier, cfg_dir)
+    for v in validation:
+      print("VALIDATION %s" % v["summary"])
+      if not v["ok"]:
+        harness_errors.append("harness validation failed: %s" % v["summary"])
   # 2. Main run, recorded classes excluded so anything found is new.
   extra = {"VERIF_KF_EXCLUDE": ",".join(sorted(known))} if known else None
   res = e1.run_jobs(pid, tier, jobs, cfg_dir, seed, extra_env=extra)
@@ -142,6 +151,7 @@ def main(pid, tier):
       "harness_errors": harness_errors,
       "jobs": per_job,
       "known_findings_reproduced": known_lines,
+      "harness_validation": validation,
       "trusted_base": meta.get("trusted_base", []),
   }
   rc = 0
